@@ -980,6 +980,11 @@ def oracle_round(rc, s0, s1, f, g_, s0_after):
         bad.append("unit")
     if (s0["dk"] == "c") != (s1["dk"] == "c"):
         bad.append("real-complex-kind")
+    # the stored payload type is part of the state (reader repaired in 66ed56c8): an integer field must not
+    # come back as a float field even when every value is representable (the Coq checker compares the data
+    # kind only as real / complex - C10_coarse_data_kind_instance - so this clause carries that part)
+    if s0["dtype"] != s1["dtype"]:
+        bad.append("payload-dtype")
     if s0["shape"] != s1["shape"]:
         bad.append("array-shape")
     else:
